@@ -10,5 +10,7 @@ CONSTANTS
   BodyPanics = FALSE
   BodyUsesPool = TRUE
   JoinerOnPool = TRUE
+  ReceiverDrops = FALSE
+  SkipIfReceiverGone = FALSE
 SPECIFICATION FairSpec
 PROPERTIES JoinReturns
